@@ -667,8 +667,49 @@ def lexer_outcomes(cx, api):
                 cx.fail("fuzz", "the %s lexer accepts ill-formed UTF-8 %s" % (how, hexs(s)), {"law": "utf8-wellformed", "input_hex": hexs(s), "line": la[i]})
 
 
+def run_lex_models(cx):
+    """the buffer-explicit lexer models (instrumented lyxml_parse_value, lyjson_string, ly_getutf8) against the code"""
+    from checks import textcomp
+    strings = textcomp.gen_strings(cx, 3000, 100000)
+    rng = cx.sub_rng("lexbuf")
+    # inputs that make the buffers grow: long runs before / between references, escapes and CDATA sections
+    pieces_x = [b"&lt;", b"&#x41;", b"&#1114111;", b"<![CDATA[" + b"c" * 5 + b"]]>", b"<![CDATA[" + b"d" * 300 + b"]]>", b"&amp;", b"&bad;", b"&#xD800;"]
+    pieces_j = [b"\\n", b"\\u0041", b"\\u20AC", b"\\\"", b"\\uD800", b"\\x", b"\\u00e9"]
+    runs = [0, 1, 18, 19, 20, 21, 23, 24, 25, 120, 127, 128, 129, 146, 147, 148, 149, 150, 151, 152, 153, 275, 276, 277, 400, 1000]
+    cases = []
+    for s in strings:
+        cases.append("xmlparse 3c " + hexs(s + b"<rest"))
+        cases.append("xmlparse 22 " + hexs(s + b"\" b"))
+        cases.append("jsonparse " + hexs(s + b"\","))
+        if len(s) <= 6:
+            cases.append("getutf8 " + hexs(s))
+    for n in runs:
+        for m in (0, 1, 3, 127, 128, 200):
+            for p in pieces_x:
+                body = b"a" * n + p + b"\xc3\xa9" * (m // 2) + rng.choice(pieces_x) + b"z" * (m % 7)
+                cases.append("xmlparse 3c " + hexs(body + b"<"))
+            for p in pieces_j:
+                body = b"a" * n + p + b"\xc3\xa9" * (m // 2) + rng.choice(pieces_j) + b"z" * (m % 7)
+                cases.append("jsonparse " + hexs(body + b"\""))
+    for _ in range(cx.n(1500, 40000)):
+        k = rng.randrange(1, 6)
+        cases.append("xmlparse 3c " + hexs(b"".join(rng.choice(pieces_x + [b"x" * rng.choice(runs[:16])]) for _ in range(k)) + b"<"))
+        cases.append("jsonparse " + hexs(b"".join(rng.choice(pieces_j + [b"x" * rng.choice(runs[:16])]) for _ in range(k)) + b"\""))
+    cases = list(dict.fromkeys(cases))
+    lines = ["%d lex %s" % (i, c) for i, c in enumerate(cases)]
+    cx.rule("lexbuf: the instrumented models (explicit len/offset/size/allocation, every store asserted) against lyxml_parse_value, lyjson_string, "
+            "ly_getutf8 on the text pool plus runs of 0..1000 plain bytes around references / escapes / CDATA sections at every growth boundary "
+            "(24, 24+128k, the +4 slack)")
+
+    def kind(line, reply):
+        return "lexbuf:%s:%s" % (line.split()[2], reply[0] if reply[0] == "ok" else reply[1])
+
+    cx.differential("lex", lines, "wb_text", kind=kind)
+
+
 def run(cx):
     run_jsonnum(cx)
+    run_lex_models(cx)
     run_api(cx)
 
 
